@@ -256,14 +256,33 @@ func runC19(r *Report) {
 	if fn := r.FnAnchor("R19e", "rueidis.(*clusterClient).redirectOrNew"); fn != nil {
 		j, _ := redirectConsts(p)
 		n := 0
-		for _, s := range Sites(fn, func(in ssa.Instruction) bool {
-			st, ok := in.(*ssa.Store)
-			if !ok {
-				return false
+		var wsStores []Site
+		for _, f := range WithHelpers(p, fn) { // the registration of the new connection may be a helper
+			if f != fn && f.Parent() == nil {
+				// the helper's mode and slot are redirectOrNew's own parameters, passed through
+				for _, cs := range p.Callers(FuncName(f)) {
+					for k, a := range CallArgs(cs.Call()) {
+						if k == 0 || k >= len(f.Params) {
+							continue
+						}
+						t := shortType(f.Params[k].Type())
+						if t == "rueidis.RedirectMode" || t == "uint16" {
+							_, isprm := Strip(a).(*ssa.Parameter)
+							r.ObSite("R19e", cs, "redirect-kind-and-slot-passed-through", isprm, "a helper of redirectOrNew is handed redirectOrNew's own mode and slot")
+						}
+					}
+				}
 			}
-			ia, ok := st.Addr.(*ssa.IndexAddr)
-			return ok && strings.HasSuffix(DescDeep(ia.X), ".wslots")
-		}) {
+			wsStores = append(wsStores, Sites(f, func(in ssa.Instruction) bool {
+				st, ok := in.(*ssa.Store)
+				if !ok {
+					return false
+				}
+				ia, ok := st.Addr.(*ssa.IndexAddr)
+				return ok && strings.HasSuffix(DescDeep(ia.X), ".wslots")
+			})...)
+		}
+		for _, s := range wsStores {
 			n++
 			moved := Guarded(s.Block, func(g Guard) bool {
 				x, op, y, cok := CmpGuard(g)
